@@ -430,6 +430,16 @@ def run_check(plugin_mod, tier, seed, replay=None):
 
     # A. proof obligations
     ob = check_obligations(prop, pl.THEOREMS)
+    # every library the case files import must be built too (not all are dependencies of the statement file)
+    if ob["ok"]:
+        imps = set(pl.COQ.get("imports", []) if getattr(pl, "COQ", None) else [])
+        for sc in getattr(pl, "SUITES", {}).values():
+            imps |= set(sc.get("imports", []))
+        ok2, log2, _ = make(sorted(i.replace(".", "/") + ".vo" for i in imps))
+        if not ok2:
+            ob["ok"] = False
+            ob["failed"] = ob.get("failed", []) + ["build:case-imports"]
+            ob["log_tail"] = log2[-2000:]
 
     # C/D/E. cases
     if replay:
